@@ -1,6 +1,1375 @@
-//! C15 — not built yet (stub; replaced by the real check).
+//! C15 — taproot script trees commit every leaf and nothing else.
+//!
+//! Library under test: `elements::taproot` (builder, Huffman construction, control blocks) and
+//! `elements::schnorr` (tap tweak of keys and key pairs). Oracle: `refimpl::taproot` (own tagged
+//! hashes, sorted-pair branches, per-leaf paths, output key as `P_even + t*G` by point
+//! addition, control-block bytes, DFS validity by recursive descent, optimal Huffman cost).
+use std::collections::hash_map::DefaultHasher;
+use std::collections::{BTreeMap, BTreeSet};
+use std::hash::{Hash as _, Hasher as _};
+use std::sync::OnceLock;
+
+use elements::schnorr::{TapTweak, TweakedPublicKey};
+use elements::secp256k1_zkp::{Keypair, Parity, PublicKey, SecretKey, XOnlyPublicKey};
+use elements::taproot::{
+    ControlBlock, LeafVersion, TapLeafHash, TapNodeHash, TapTweakHash, TaprootBuilder, TaprootSpendInfo,
+};
+use elements::Script;
+use serde_json::json;
+
 use crate::engine::*;
+use crate::gen::{self, pool, secp};
+use crate::refimpl::taproot::{self as rt, Node, H};
+use crate::{ensure, ensure_eq};
+
+type Key = (Vec<u8>, u8);
+
+fn ref_ready() -> R {
+    static S: OnceLock<Result<(), String>> = OnceLock::new();
+    match S.get_or_init(rt::self_test) {
+        Ok(()) => Ok(()),
+        // a broken reference is a harness error, never a violation
+        Err(e) => Err(Failure::panic(format!("taproot reference self-test failed: {}", e), "src/refimpl/taproot.rs".into())),
+    }
+}
+
+// ---------------------------------------------------------------------------------------------
+// generators
+// ---------------------------------------------------------------------------------------------
+
+fn gen_ver(t: &mut Tape) -> u8 {
+    match t.below(4) {
+        0 | 1 => 0xc4,
+        2 => 0xc0,
+        _ => {
+            let v = t.u8() & 0xfe;
+            if v == 0x50 {
+                0x52
+            } else {
+                v
+            }
+        }
+    }
+}
+
+fn gen_leaf_script(t: &mut Tape) -> Vec<u8> {
+    match t.below(16) {
+        0 => vec![0x51],
+        1 => vec![],
+        2..=8 => {
+            let n = 1 + t.below(6);
+            t.bytes(n)
+        }
+        9..=11 => {
+            // <32-byte key> OP_CHECKSIG
+            let mut v = vec![0x20];
+            v.extend_from_slice(&t.arr32());
+            v.push(0xac);
+            v
+        }
+        12 | 13 => gen::gen_script(t, false).into_bytes(),
+        14 => {
+            let n = t.choose(&[252usize, 253, 254, 255, 256, 300, 520]);
+            t.filler(n)
+        }
+        _ => {
+            // rare: the 0x10000 compact-size boundary
+            let n = if t.chance(24) { t.choose(&[65535usize, 65536]) } else { t.choose(&[75usize, 76, 77, 80]) };
+            t.filler(n)
+        }
+    }
+}
+
+fn gen_leaf(t: &mut Tape) -> Node {
+    let script = gen_leaf_script(t);
+    let ver = gen_ver(t);
+    Node::Leaf { script, ver }
+}
+
+/// internal key, with the key pair when the secret is known
+fn gen_internal(t: &mut Tape) -> (XOnlyPublicKey, Option<Keypair>) {
+    let p = pool();
+    let from_sk = |sk: &SecretKey| {
+        let kp = Keypair::from_secret_key(secp(), sk);
+        (kp.x_only_public_key().0, Some(kp))
+    };
+    match t.below(5) {
+        0 => {
+            let i = t.below(p.seckeys.len());
+            from_sk(&p.seckeys[i])
+        }
+        1 | 2 => {
+            let b = t.arr32();
+            match SecretKey::from_slice(&b) {
+                Ok(sk) => from_sk(&sk),
+                Err(_) => from_sk(&p.seckeys[1]),
+            }
+        }
+        3 => {
+            // x-only key without a known secret
+            let b = t.arr32();
+            match XOnlyPublicKey::from_slice(&b) {
+                Ok(x) => (x, None),
+                Err(_) => (p.pubkeys[2].x_only_public_key().0, None),
+            }
+        }
+        _ => {
+            // small / large secrets
+            let mut b = [0u8; 32];
+            b[31] = 1 + t.below(4) as u8;
+            if t.bool() {
+                // n - k
+                let n: [u8; 32] = [
+                    0xff, 0xff, 0xff, 0xff, 0xff, 0xff, 0xff, 0xff, 0xff, 0xff, 0xff, 0xff, 0xff, 0xff, 0xff, 0xfe, 0xba, 0xae,
+                    0xdc, 0xe6, 0xaf, 0x48, 0xa0, 0x3b, 0xbf, 0xd2, 0x5e, 0x8c, 0xd0, 0x36, 0x41, 0x41,
+                ];
+                let k = b[31];
+                b = n;
+                b[31] -= k;
+            }
+            match SecretKey::from_slice(&b) {
+                Ok(sk) => from_sk(&sk),
+                Err(_) => from_sk(&p.seckeys[3]),
+            }
+        }
+    }
+}
+
+/// random full binary tree with `n` leaves; leaf contents from `leaf`
+fn gen_shape(t: &mut Tape, n: usize, leaf: &mut dyn FnMut(&mut Tape) -> Node) -> Node {
+    if n <= 1 {
+        return leaf(t);
+    }
+    let l = 1 + t.below(n - 1);
+    let a = gen_shape(t, l, leaf);
+    let b = gen_shape(t, n - l, leaf);
+    Node::Branch(Box::new(a), Box::new(b))
+}
+
+/// replace random subtrees by hidden nodes; returns the tree the builder is told about and,
+/// for hidden nodes whose hash is the real hash of the replaced subtree, that subtree (by DFS
+/// item index in the new tree)
+fn hide_subtrees(t: &mut Tape, n: &Node, chance: u32, item_idx: &mut usize, inner: &mut Vec<(usize, Node)>) -> Node {
+    if t.chance(chance) {
+        let idx = *item_idx;
+        *item_idx += 1;
+        if t.bool() {
+            // a real subtree the builder does not get to see
+            inner.push((idx, n.clone()));
+            return Node::Hidden(rt::merkle_root(n));
+        }
+        return Node::Hidden(t.arr32());
+    }
+    match n {
+        Node::Branch(l, r) => {
+            let a = hide_subtrees(t, l, chance, item_idx, inner);
+            let b = hide_subtrees(t, r, chance, item_idx, inner);
+            Node::Branch(Box::new(a), Box::new(b))
+        }
+        other => {
+            *item_idx += 1;
+            other.clone()
+        }
+    }
+}
+
+// ---------------------------------------------------------------------------------------------
+// library access (every call guarded)
+// ---------------------------------------------------------------------------------------------
+
+enum LItem {
+    Leaf(Script, LeafVersion),
+    Hidden(TapNodeHash),
+}
+
+fn lib_ver(v: u8) -> Result<LeafVersion, Failure> {
+    match guard::guard("LeafVersion::from_u8", 1, || LeafVersion::from_u8(v))? {
+        Ok(l) => Ok(l),
+        Err(e) => Err(Failure::new(format!("LeafVersion::from_u8 refuses the even, non-annex version {:#x}: {:?}", v, e))),
+    }
+}
+
+fn to_litems(items: &[(usize, Node)]) -> Result<Vec<(usize, LItem)>, Failure> {
+    let mut out = Vec::with_capacity(items.len());
+    for (d, n) in items {
+        out.push((
+            *d,
+            match n {
+                Node::Leaf { script, ver } => LItem::Leaf(Script::from(script.clone()), lib_ver(*ver)?),
+                Node::Hidden(h) => LItem::Hidden(TapNodeHash::from_byte_array(*h)),
+                Node::Branch(..) => {
+                    return Err(Failure::panic("harness: branch in a DFS item list".into(), "src/props/c15.rs".into()))
+                }
+            },
+        ));
+    }
+    Ok(out)
+}
+
+/// feed the builder item by item, then finalize; inner Err(stage) when the library refuses
+fn lib_build(items: &[(usize, Node)], internal: &XOnlyPublicKey) -> Result<Result<TaprootSpendInfo, String>, Failure> {
+    let litems = to_litems(items)?;
+    let len: usize = items.iter().map(|(_, n)| if let Node::Leaf { script, .. } = n { script.len() + 40 } else { 40 }).sum();
+    guard::guard("TaprootBuilder::{add_leaf, add_leaf_with_ver, add_hidden, finalize}", len, || {
+        let mut b = TaprootBuilder::new();
+        for (k, (d, it)) in litems.iter().enumerate() {
+            let r = match it {
+                LItem::Leaf(s, v) => {
+                    if v.as_u8() == 0xc4 && k % 2 == 0 {
+                        // default version path
+                        b.add_leaf(*d, s.clone())
+                    } else {
+                        b.add_leaf_with_ver(*d, s.clone(), *v)
+                    }
+                }
+                LItem::Hidden(h) => b.add_hidden(*d, *h),
+            };
+            match r {
+                Ok(nb) => b = nb,
+                Err(e) => return Err(format!("item {} at depth {}: {:?}", k, d, e)),
+            }
+        }
+        b.finalize(secp(), *internal).map_err(|e| format!("finalize: {:?}", e))
+    })
+}
+
+fn lib_verify(cb: &ControlBlock, out: &XOnlyPublicKey, script: &[u8]) -> Result<bool, Failure> {
+    let s = Script::from(script.to_vec());
+    let k = TweakedPublicKey::new(*out);
+    guard::guard("ControlBlock::verify_taproot_commitment", script.len() + 4200, || cb.verify_taproot_commitment(secp(), &k, &s))
+}
+
+fn lib_parse_cb(bytes: &[u8]) -> Result<Option<ControlBlock>, Failure> {
+    Ok(guard::guard("ControlBlock::from_slice", bytes.len(), || ControlBlock::from_slice(bytes))?.ok())
+}
+
+fn lib_control_block(info: &TaprootSpendInfo, key: &Key) -> Result<Option<ControlBlock>, Failure> {
+    let k = (Script::from(key.0.clone()), lib_ver(key.1)?);
+    guard::guard("TaprootSpendInfo::control_block", key.0.len(), || info.control_block(&k))
+}
+
+fn xonly_from(x: &H) -> Result<XOnlyPublicKey, Failure> {
+    XOnlyPublicKey::from_slice(x)
+        .map_err(|_| Failure::panic("harness: reference output key is not a curve point".into(), "src/props/c15.rs".into()))
+}
+
+// ---------------------------------------------------------------------------------------------
+// negatives: a control block must not verify with anything but its own leaf / path / key
+// ---------------------------------------------------------------------------------------------
+
+const NEG_KINDS: usize = 10;
+const NEG_NAMES: [&str; NEG_KINDS] = [
+    "script-mutated",
+    "script-of-other-leaf",
+    "leaf-version",
+    "path-element-changed",
+    "path-element-dropped",
+    "path-element-added",
+    "path-adjacent-swapped",
+    "parity-flipped",
+    "other-output-key",
+    "internal-key-as-output-key",
+];
+
+struct NegEnv<'a> {
+    /// serialized genuine control block
+    ser: &'a [u8],
+    script: &'a [u8],
+    out: XOnlyPublicKey,
+    internal: XOnlyPublicKey,
+    /// scripts of other leaves of the same tree
+    others: &'a [Vec<u8>],
+}
+
+fn must_reject(bytes: &[u8], script: &[u8], out: &XOnlyPublicKey, what: &str, ctx: &mut Ctx) -> R {
+    ctx.eval();
+    match lib_parse_cb(bytes)? {
+        None => {
+            ctx.class(&format!("neg:{}:refused-by-from_slice", what));
+            Ok(())
+        }
+        Some(cb) => {
+            let v = lib_verify(&cb, out, script)?;
+            ensure!(
+                !v,
+                "a control block verifies with {}: output_key={} script={} control_block={}",
+                what,
+                out,
+                hex(&script[..script.len().min(80)]),
+                hex(bytes)
+            );
+            ctx.class(&format!("neg:{}", what));
+            Ok(())
+        }
+    }
+}
+
+/// run negative `kind`; Ok(false) when it is not applicable to this leaf
+fn negative(kind: usize, e: &NegEnv, t: &mut Tape, ctx: &mut Ctx) -> Result<bool, Failure> {
+    let depth = (e.ser.len() - 33) / 32;
+    let what = NEG_NAMES[kind];
+    match kind {
+        0 => {
+            let mut s = e.script.to_vec();
+            match t.below(4) {
+                0 => s.push(t.u8()),
+                1 if !s.is_empty() => {
+                    s.pop();
+                }
+                2 if !s.is_empty() => {
+                    let i = t.below(s.len());
+                    let bit = 1u8 << t.below(8);
+                    s[i] ^= bit;
+                }
+                _ => s.insert(0, t.u8()),
+            }
+            must_reject(e.ser, &s, &e.out, what, ctx)?;
+        }
+        1 => {
+            let cands: Vec<&Vec<u8>> = e.others.iter().filter(|o| o.as_slice() != e.script).collect();
+            if cands.is_empty() {
+                return Ok(false);
+            }
+            let o = cands[t.below(cands.len())];
+            must_reject(e.ser, o, &e.out, what, ctx)?;
+        }
+        2 => {
+            let mut b = e.ser.to_vec();
+            let bit = 2u8 << t.below(7);
+            b[0] ^= bit;
+            must_reject(&b, e.script, &e.out, what, ctx)?;
+        }
+        3 => {
+            if depth == 0 {
+                return Ok(false);
+            }
+            let mut b = e.ser.to_vec();
+            let pos = 33 + 32 * t.below(depth) + t.below(32);
+            let bit = 1u8 << t.below(8);
+            b[pos] ^= bit;
+            must_reject(&b, e.script, &e.out, what, ctx)?;
+        }
+        4 => {
+            if depth == 0 {
+                return Ok(false);
+            }
+            let i = match t.below(3) {
+                0 => depth - 1,
+                1 => 0,
+                _ => t.below(depth),
+            };
+            let mut b = e.ser.to_vec();
+            b.drain(33 + 32 * i..33 + 32 * (i + 1));
+            must_reject(&b, e.script, &e.out, what, ctx)?;
+        }
+        5 => {
+            let mut b = e.ser.to_vec();
+            let extra: Vec<u8> = if depth > 0 && t.bool() {
+                // repeat an existing element
+                let i = t.below(depth);
+                b[33 + 32 * i..33 + 32 * (i + 1)].to_vec()
+            } else {
+                t.arr32().to_vec()
+            };
+            let at = match t.below(3) {
+                0 => depth,
+                1 => 0,
+                _ => t.below(depth + 1),
+            };
+            let tail = b.split_off(33 + 32 * at);
+            b.extend_from_slice(&extra);
+            b.extend_from_slice(&tail);
+            must_reject(&b, e.script, &e.out, what, ctx)?;
+        }
+        6 => {
+            if depth < 2 {
+                return Ok(false);
+            }
+            let i = t.below(depth - 1);
+            let mut b = e.ser.to_vec();
+            let (x, y) = (33 + 32 * i, 33 + 32 * (i + 1));
+            if b[x..x + 32] == b[y..y + 32] {
+                return Ok(false);
+            }
+            for k in 0..32 {
+                b.swap(x + k, y + k);
+            }
+            must_reject(&b, e.script, &e.out, what, ctx)?;
+        }
+        7 => {
+            let mut b = e.ser.to_vec();
+            b[0] ^= 1;
+            must_reject(&b, e.script, &e.out, what, ctx)?;
+        }
+        8 => {
+            let p = pool();
+            let other = match t.below(3) {
+                0 => p.pubkeys[t.below(p.pubkeys.len())].x_only_public_key().0,
+                1 => {
+                    // the key-spend-only output key of the same internal key
+                    match rt::output_key(&e.internal.serialize(), None) {
+                        Some(k) => xonly_from(&k.x)?,
+                        None => return Ok(false),
+                    }
+                }
+                _ => {
+                    let mut x = e.out.serialize();
+                    let (i, bit) = (t.below(32), 1u8 << t.below(8));
+                    x[i] ^= bit;
+                    match XOnlyPublicKey::from_slice(&x) {
+                        Ok(k) => k,
+                        Err(_) => p.pubkeys[5].x_only_public_key().0,
+                    }
+                }
+            };
+            if other == e.out {
+                return Ok(false);
+            }
+            must_reject(e.ser, e.script, &other, what, ctx)?;
+        }
+        _ => {
+            if e.internal == e.out {
+                return Ok(false);
+            }
+            must_reject(e.ser, e.script, &e.internal, what, ctx)?;
+        }
+    }
+    Ok(true)
+}
+
+// ---------------------------------------------------------------------------------------------
+// the core comparison of a built TaprootSpendInfo with the reference tree
+// ---------------------------------------------------------------------------------------------
+
+struct Plan {
+    /// keys (distinct script+version) that get every kind of negative; the rest get `few`
+    full_neg_keys: usize,
+    few: usize,
+    /// at most this many keys are examined at all (sampled by the tape beyond)
+    max_keys: usize,
+}
+
+fn struct_sig(items: &[rt::Item], dup_keys: usize) -> u64 {
+    let mut h = DefaultHasher::new();
+    for it in items {
+        it.depth.hash(&mut h);
+        matches!(it.node, Node::Hidden(_)).hash(&mut h);
+    }
+    dup_keys.hash(&mut h);
+    h.finish()
+}
+
+fn check_info(
+    label: &str,
+    tree: &Node,
+    inner: &[(usize, Node)],
+    info: &TaprootSpendInfo,
+    internal: &XOnlyPublicKey,
+    plan: &Plan,
+    t: &mut Tape,
+    ctx: &mut Ctx,
+) -> R {
+    let xo: H = internal.serialize();
+    let (root, items) = rt::analyze(tree);
+    let Some(ok) = rt::output_key(&xo, Some(&root)) else {
+        // tweak >= group order or zero sum: probability 2^-128
+        ctx.exclude();
+        return Ok(());
+    };
+    let out_ref = xonly_from(&ok.x)?;
+
+    // --- output key, parity, merkle root, internal key, tweak hash
+    let (l_root, l_out, l_par, l_int, l_tw, l_tw2) = guard::guard("TaprootSpendInfo accessors", 0, || {
+        (
+            info.merkle_root().map(|r| r.to_byte_array()),
+            info.output_key().into_inner().serialize(),
+            info.output_key_parity(),
+            info.internal_key().serialize(),
+            info.tap_tweak().to_byte_array(),
+            TapTweakHash::from_key_and_tweak(*internal, Some(TapNodeHash::from_byte_array(root))).to_byte_array(),
+        )
+    })?;
+    ctx.evals_n(4);
+    ensure_eq!(l_root.map(|r| hex(&r)), Some(hex(&root)), "{}: merkle root differs from the reference (sorted-pair TapBranch/elements tree)", label);
+    ensure_eq!(hex(&l_int), hex(&xo), "{}: internal key changed", label);
+    let want_tw = rt::tweak(&xo, Some(&root));
+    ensure_eq!(hex(&l_tw), hex(&want_tw), "{}: tap_tweak() differs from tagged(TapTweak/elements, internal || root)", label);
+    ensure_eq!(hex(&l_tw2), hex(&want_tw), "{}: TapTweakHash::from_key_and_tweak differs from the reference", label);
+    ensure_eq!(hex(&l_out), hex(&ok.x), "{}: output key differs from lift_x(internal) + tweak*G (internal={}, root={})", label, hex(&xo), hex(&root));
+    ensure_eq!(l_par == Parity::Odd, ok.odd, "{}: output key parity differs from the reference (internal={}, root={})", label, hex(&xo), hex(&root));
+
+    // --- the script map holds exactly the visible leaves with exactly their paths
+    let mut ref_map: BTreeMap<Key, BTreeSet<Vec<u8>>> = BTreeMap::new();
+    let mut by_key: BTreeMap<Key, Vec<&rt::Item>> = BTreeMap::new();
+    let mut hidden = 0usize;
+    for it in &items {
+        match &it.node {
+            Node::Leaf { script, ver } => {
+                let k = (script.clone(), *ver);
+                ref_map.entry(k.clone()).or_default().insert(it.path.concat());
+                by_key.entry(k).or_default().push(it);
+            }
+            _ => hidden += 1,
+        }
+    }
+    let lib_map: BTreeMap<Key, BTreeSet<Vec<u8>>> = guard::guard("TaprootSpendInfo::as_script_map", 0, || {
+        info.as_script_map()
+            .iter()
+            .map(|((s, v), set)| ((s.to_bytes(), v.as_u8()), set.iter().map(|b| b.serialize()).collect()))
+            .collect()
+    })?;
+    ctx.eval();
+    if lib_map != ref_map {
+        let show = |m: &BTreeMap<Key, BTreeSet<Vec<u8>>>, k: &Key| -> String {
+            match m.get(k) {
+                None => "absent".into(),
+                Some(set) => format!("{:?}", set.iter().map(|p| p.chunks(32).map(|c| hex(&c[..4.min(c.len())])).collect::<Vec<_>>().join(",")).collect::<Vec<_>>()),
+            }
+        };
+        let all: BTreeSet<&Key> = lib_map.keys().chain(ref_map.keys()).collect();
+        let diff: Vec<String> = all
+            .iter()
+            .filter(|k| lib_map.get(**k) != ref_map.get(**k))
+            .take(3)
+            .map(|k| format!("script {} version {:#x}: library paths {} reference paths {}", hex(&k.0[..k.0.len().min(16)]), k.1, show(&lib_map, k), show(&ref_map, k)))
+            .collect();
+        return Err(Failure::new(format!(
+            "{}: script map is not exactly the visible leaves with their sibling paths (paths as 4-byte prefixes of each element, leaf to root); {} entries in the library, {} in the reference; differing: {}",
+            label,
+            lib_map.len(),
+            ref_map.len(),
+            diff.join("; ")
+        )));
+    }
+    let dup_keys = by_key.values().filter(|v| v.len() > 1).count();
+    let leaves = items.len() - hidden;
+    let sig = struct_sig(&items, dup_keys);
+    ctx.class(match leaves {
+        0 => "tree:0-visible-leaves",
+        1 => "tree:1-leaf",
+        2 => "tree:2-leaves",
+        3..=7 => "tree:3-7-leaves",
+        8..=40 => "tree:8-40-leaves",
+        _ => "tree:>40-leaves",
+    });
+    if hidden > 0 {
+        ctx.class("tree:with-hidden-node");
+    }
+    if dup_keys > 0 {
+        ctx.class("tree:with-duplicate-leaf");
+    }
+    if leaves >= 3 || hidden > 0 || dup_keys > 0 {
+        ctx.nontrivial(&(label, sig));
+    }
+
+    // --- per key: the control block
+    let keys: Vec<&Key> = by_key.keys().collect();
+    let all_scripts: Vec<Vec<u8>> = keys.iter().map(|k| k.0.clone()).collect();
+    let chosen: Vec<usize> = if keys.len() <= plan.max_keys {
+        (0..keys.len()).collect()
+    } else {
+        // deepest and shallowest leaf always, the rest sampled
+        let deepest = (0..keys.len()).max_by_key(|i| by_key[keys[*i]].iter().map(|l| l.depth).max().unwrap_or(0)).unwrap_or(0);
+        let shallow = (0..keys.len()).min_by_key(|i| by_key[keys[*i]].iter().map(|l| l.depth).min().unwrap_or(0)).unwrap_or(0);
+        let mut v = vec![deepest, shallow];
+        for _ in 2..plan.max_keys {
+            v.push(t.below(keys.len()));
+        }
+        v
+    };
+    for (n_done, ki) in chosen.iter().enumerate() {
+        let key = keys[*ki];
+        let occ = &by_key[key];
+        let dmin = occ.iter().map(|l| l.depth).min().unwrap_or(0);
+        let (script, ver) = (&key.0, key.1);
+        // leaf hash
+        let lh = {
+            let s = Script::from(script.clone());
+            let v = lib_ver(ver)?;
+            guard::guard("TapLeafHash::from_script", script.len(), || TapLeafHash::from_script(&s, v).to_byte_array())?
+        };
+        ensure_eq!(hex(&lh), hex(&rt::leaf_hash(ver, script)), "{}: TapLeafHash::from_script differs from tagged(TapLeaf/elements, ver || compact_size || script), version {:#x}, script of {} bytes", label, ver, script.len());
+        let Some(cb) = lib_control_block(info, key)? else {
+            return Err(Failure::new(format!("{}: no control block for the leaf (script {}, version {:#x}) at depth {}", label, hex(&script[..script.len().min(40)]), ver, dmin)));
+        };
+        let (ser, size) = guard::guard("ControlBlock::{serialize,size}", 0, || (cb.serialize(), cb.size()))?;
+        ctx.evals_n(5);
+        ensure_eq!(size, 33 + 32 * dmin, "{}: ControlBlock::size for a leaf whose shallowest occurrence is at depth {}", label, dmin);
+        ensure_eq!(ser.len(), 33 + 32 * dmin, "{}: serialized control block length for a leaf whose shallowest occurrence is at depth {}", label, dmin);
+        let wants: Vec<Vec<u8>> =
+            occ.iter().filter(|l| l.depth == dmin).map(|l| rt::control_block_bytes(ver, ok.odd, &xo, &l.path)).collect();
+        ensure!(
+            wants.contains(&ser),
+            "{}: control block bytes differ from the reference [version|parity] || internal || siblings leaf-to-root: library {} reference {}",
+            label,
+            hex(&ser),
+            hex(&wants[0])
+        );
+        match lib_parse_cb(&ser)? {
+            Some(back) => ensure!(back == cb, "{}: ControlBlock::from_slice(serialize()) is a different control block: {:?} vs {:?}", label, back, cb),
+            None => return Err(Failure::new(format!("{}: ControlBlock::from_slice refuses the serialized control block {}", label, hex(&ser)))),
+        }
+        ensure!(
+            lib_verify(&cb, &out_ref, script)?,
+            "{}: the control block of a leaf at depth {} does not verify against the output key {} (script {}, version {:#x}, control block {})",
+            label,
+            dmin,
+            hex(&ok.x),
+            hex(&script[..script.len().min(40)]),
+            ver,
+            hex(&ser)
+        );
+        // every occurrence (any depth) is committed: its reference-built proof verifies
+        if occ.len() > 1 {
+            for l in occ.iter() {
+                let b = rt::control_block_bytes(ver, ok.odd, &xo, &l.path);
+                ctx.eval();
+                match lib_parse_cb(&b)? {
+                    Some(c) => ensure!(lib_verify(&c, &out_ref, script)?, "{}: the proof of a duplicate leaf at depth {} does not verify: {}", label, l.depth, hex(&b)),
+                    None => return Err(Failure::new(format!("{}: from_slice refuses the proof of a duplicate leaf at depth {}", label, l.depth))),
+                }
+            }
+            ctx.class(if occ.iter().any(|l| l.depth != dmin) { "duplicate:different-depths:shortest-returned" } else { "duplicate:same-depth" });
+        }
+        // negatives
+        let env = NegEnv { ser: &ser, script, out: out_ref, internal: *internal, others: &all_scripts };
+        let kinds: Vec<usize> = if n_done < plan.full_neg_keys {
+            (0..NEG_KINDS).collect()
+        } else {
+            (0..plan.few).map(|_| t.below(NEG_KINDS)).collect()
+        };
+        for k in kinds {
+            if negative(k, &env, t, ctx)? {
+                ctx.nontrivial(&(label, sig, *ki, k));
+            }
+        }
+    }
+
+    // --- leaves below a hidden node: no control block, yet really committed
+    for (idx, sub) in inner {
+        let Some(hid) = items.get(*idx) else { continue };
+        let (sub_root, sub_items) = rt::analyze(sub);
+        if sub_root != hid.hash || !matches!(hid.node, Node::Hidden(_)) {
+            return Err(Failure::panic("harness: hidden-subtree bookkeeping".into(), "src/props/c15.rs".into()));
+        }
+        for (n, li) in sub_items.iter().enumerate() {
+            if n >= 4 {
+                break;
+            }
+            let Node::Leaf { script, ver } = &li.node else { continue };
+            let key = (script.clone(), *ver);
+            ctx.eval();
+            if !ref_map.contains_key(&key) {
+                let got = lib_control_block(info, &key)?;
+                ensure!(got.is_none(), "{}: a control block is produced for a script that is only below a hidden node: {:?}", label, got);
+                ctx.class("hidden:leaf-below-has-no-control-block");
+            }
+            let mut path = li.path.clone();
+            path.extend_from_slice(&hid.path);
+            if path.len() <= rt::MAX_DEPTH {
+                let b = rt::control_block_bytes(*ver, ok.odd, &xo, &path);
+                match lib_parse_cb(&b)? {
+                    Some(c) => ensure!(lib_verify(&c, &out_ref, script)?, "{}: the externally built proof of a leaf below a hidden node does not verify (the hidden hash is not part of the merkle root?)", label),
+                    None => return Err(Failure::new(format!("{}: from_slice refuses an external proof of {} elements", label, path.len()))),
+                }
+                ctx.class("hidden:external-proof-verifies");
+            }
+        }
+    }
+    // --- a script that is nowhere in the tree
+    let mut absent = t.bytes(3);
+    absent.extend_from_slice(b"\xfaabsent");
+    let akey = (absent, 0xc4u8);
+    if !ref_map.contains_key(&akey) {
+        ctx.eval();
+        ensure!(lib_control_block(info, &akey)?.is_none(), "{}: a control block is produced for a script that is not in the tree", label);
+    }
+    if ctx.wants_sample(label) && (items.len() >= 3 || label.starts_with("sequence")) {
+        let mut depths: Vec<String> = items.iter().map(|i| format!("{}{}", if matches!(i.node, Node::Hidden(_)) { "h" } else { "" }, i.depth)).collect();
+        if depths.len() > 48 {
+            let n = depths.len();
+            let tail = depths.split_off(n - 6);
+            depths.truncate(12);
+            depths.push(format!("...({} more)...", n - 18));
+            depths.extend(tail);
+        }
+        ctx.sample(label, || json!({"dfs_items": items.len(), "dfs_depths(h=hidden)": depths.join(" "), "internal_key": hex(&xo), "merkle_root": hex(&root),
+            "output_key": hex(&ok.x), "output_key_odd": ok.odd, "distinct_leaves": keys.len(), "duplicate_keys": dup_keys,
+            "leaves_examined": chosen.len()}));
+    }
+    Ok(())
+}
+
+/// build through the library; the tree is valid, so refusal is a failure
+fn build_valid_and_check(
+    label: &str,
+    tree: &Node,
+    inner: &[(usize, Node)],
+    internal: &XOnlyPublicKey,
+    plan: &Plan,
+    t: &mut Tape,
+    ctx: &mut Ctx,
+) -> R {
+    let items = rt::dfs_items(tree);
+    ctx.eval();
+    match lib_build(&items, internal)? {
+        Ok(info) => check_info(label, tree, inner, &info, internal, plan, t, ctx),
+        Err(_) if !items.iter().any(|(_, n)| matches!(n, Node::Leaf { .. })) => {
+            // a tree of hidden nodes only has no leaf to commit to; acceptance is not demanded
+            ctx.class("tree:all-hidden:refused");
+            Ok(())
+        }
+        Err(stage) => Err(Failure::new(format!(
+            "{}: a complete tree given in DFS order is refused ({}); DFS depths {:?}",
+            label,
+            stage,
+            items.iter().map(|(d, _)| *d).collect::<Vec<_>>()
+        ))),
+    }
+}
+
+// ---------------------------------------------------------------------------------------------
+// 1. every shape with 1..=7 (thorough: 1..=9) leaves
+// ---------------------------------------------------------------------------------------------
+
+fn all_shapes(max_leaves: usize) -> Vec<rt::Shape> {
+    (1..=max_leaves).flat_map(rt::shapes).collect()
+}
+fn shapes_quick() -> &'static Vec<rt::Shape> {
+    static S: OnceLock<Vec<rt::Shape>> = OnceLock::new();
+    S.get_or_init(|| all_shapes(7))
+}
+fn shapes_thorough() -> &'static Vec<rt::Shape> {
+    static S: OnceLock<Vec<rt::Shape>> = OnceLock::new();
+    S.get_or_init(|| all_shapes(9))
+}
+const SHAPE_VARIANTS_QUICK: u64 = 2;
+const SHAPE_VARIANTS_THOROUGH: u64 = 6;
+
+fn shapes_exhaustive(idx: u64, seed: u64, ctx: &mut Ctx) -> R {
+    ref_ready()?;
+    let (shapes, variants) = match ctx.tier {
+        Tier::Quick => (shapes_quick(), SHAPE_VARIANTS_QUICK),
+        Tier::Thorough => (shapes_thorough(), SHAPE_VARIANTS_THOROUGH),
+    };
+    let shape = &shapes[(idx / variants) as usize % shapes.len()];
+    let variant = idx % variants;
+    let bytes = seeded_bytes(seed, idx, 4096);
+    let mut t = Tape::new(&bytes);
+    let (internal, _) = gen_internal(&mut t);
+    let mut k = 0u8;
+    let tree = shape.fill(&mut || {
+        k += 1;
+        if variant == 0 {
+            // plain: distinct one-byte scripts, default version
+            Node::Leaf { script: vec![0x50 + k], ver: 0xc4 }
+        } else {
+            let mut script = gen_leaf_script(&mut t);
+            if script.len() > 600 {
+                script.truncate(600);
+            }
+            // distinct by construction in this family
+            script.push(k);
+            Node::Leaf { script, ver: gen_ver(&mut t) }
+        }
+    });
+    let plan = Plan { full_neg_keys: usize::MAX, few: 0, max_keys: usize::MAX };
+    ctx.class(&format!("shape:{}-leaves", shape.leaves()));
+    build_valid_and_check("shapes", &tree, &[], &internal, &plan, &mut t, ctx)
+}
+
+// ---------------------------------------------------------------------------------------------
+// 2. every depth sequence (with every hidden mask) of bounded length: accepted iff valid
+// ---------------------------------------------------------------------------------------------
+
+fn seq_params(tier: Tier) -> (usize, usize) {
+    // (max length, max depth)
+    tier.pick((5, 5), (6, 6))
+}
+fn seq_count(tier: Tier) -> u64 {
+    let (l, d) = seq_params(tier);
+    let base = 2 * (d as u64 + 1);
+    (1..=l as u32).map(|k| base.pow(k)).sum()
+}
+
+fn depth_sequences_exhaustive(idx: u64, seed: u64, ctx: &mut Ctx) -> R {
+    ref_ready()?;
+    let (maxlen, maxd) = seq_params(ctx.tier);
+    let base = 2 * (maxd as u64 + 1);
+    let mut rest = idx;
+    let mut len = 1u32;
+    while len < maxlen as u32 && rest >= base.pow(len) {
+        rest -= base.pow(len);
+        len += 1;
+    }
+    let bytes = seeded_bytes(seed, idx, 1024);
+    let mut t = Tape::new(&bytes);
+    let mut items: Vec<(usize, Node)> = Vec::new();
+    for i in 0..len {
+        let digit = rest % base;
+        rest /= base;
+        let depth = (digit / 2) as usize;
+        let node = if digit % 2 == 1 {
+            Node::Hidden(t.arr32())
+        } else {
+            Node::Leaf { script: vec![0x51 + i as u8], ver: if t.bool() { 0xc4 } else { gen_ver(&mut t) } }
+        };
+        items.push((depth, node));
+    }
+    let visible = items.iter().filter(|(_, n)| matches!(n, Node::Leaf { .. })).count();
+    let (internal, _) = gen_internal(&mut t);
+    let want = rt::tree_from_dfs(&items);
+    let got = lib_build(&items, &internal)?;
+    ctx.eval();
+    let depths: Vec<String> = items.iter().map(|(d, n)| format!("{}{}", if matches!(n, Node::Hidden(_)) { "h" } else { "" }, d)).collect();
+    match (&want, &got) {
+        (None, Err(_)) => {
+            ctx.class("sequence:invalid:refused");
+            if items.len() >= 3 || visible < items.len() {
+                ctx.nontrivial(&("seq", idx));
+            }
+            if ctx.wants_sample("sequence:invalid") {
+                let stage = got.as_ref().err().cloned().unwrap_or_default();
+                ctx.sample("sequence:invalid", || json!({"depths(h=hidden)": depths.join(" "), "refused_at": stage}));
+            }
+            Ok(())
+        }
+        (None, Ok(_)) => Err(Failure::new(format!(
+            "the builder finalizes the depth sequence [{}] which is not the DFS leaf sequence of any complete binary tree",
+            depths.join(" ")
+        ))),
+        (Some(_), Err(stage)) => {
+            if visible == 0 {
+                // a tree of hidden nodes only has no leaf to commit to; acceptance is not demanded
+                ctx.class("sequence:valid:all-hidden:refused");
+                return Ok(());
+            }
+            Err(Failure::new(format!("the builder refuses the valid DFS depth sequence [{}] ({})", depths.join(" "), stage)))
+        }
+        (Some(tree), Ok(info)) => {
+            ctx.class("sequence:valid:accepted");
+            let plan = Plan { full_neg_keys: usize::MAX, few: 0, max_keys: usize::MAX };
+            check_info("sequence:valid", tree, &[], info, &internal, &plan, &mut t, ctx)
+        }
+    }
+}
+
+// ---------------------------------------------------------------------------------------------
+// 3. random trees: duplicates, hidden subtrees, mutated histories, deep chains, key pairs
+// ---------------------------------------------------------------------------------------------
+
+fn check_keypair(kp: &Keypair, root: Option<H>, ctx: &mut Ctx) -> R {
+    let x = kp.x_only_public_key().0;
+    let xo = x.serialize();
+    let Some(ok) = rt::output_key(&xo, root.as_ref()) else {
+        ctx.exclude();
+        return Ok(());
+    };
+    let mr = root.map(TapNodeHash::from_byte_array);
+    let (tweaked, parts, pub_tw) = guard::guard("Keypair::tap_tweak / XOnlyPublicKey::tap_tweak", 0, || {
+        let tk = (*kp).tap_tweak(secp(), mr);
+        let parts = tk.public_parts();
+        (tk.to_inner(), (parts.0.into_inner().serialize(), parts.1), x.tap_tweak(secp(), mr))
+    })?;
+    ctx.evals_n(3);
+    // the tweaked secret generates exactly the output key
+    let sk = tweaked.secret_key();
+    let regenerated = PublicKey::from_secret_key(secp(), &sk).serialize();
+    ensure_eq!(hex(&regenerated), hex(&ok.full), "the secret key of the tweaked key pair does not generate the output key (internal {}, merkle root {:?})", hex(&xo), root.map(|r| hex(&r)));
+    ensure_eq!(hex(&tweaked.public_key().serialize()), hex(&ok.full), "the public key of the tweaked key pair is not the output key (internal {})", hex(&xo));
+    ensure_eq!(hex(&parts.0), hex(&ok.x), "TweakedKeypair::public_parts key");
+    ensure_eq!(parts.1 == Parity::Odd, ok.odd, "TweakedKeypair::public_parts parity");
+    ensure_eq!(hex(&pub_tw.0.into_inner().serialize()), hex(&ok.x), "XOnlyPublicKey::tap_tweak differs from lift_x(P) + t*G (internal {}, merkle root {:?})", hex(&xo), root.map(|r| hex(&r)));
+    ensure_eq!(pub_tw.1 == Parity::Odd, ok.odd, "XOnlyPublicKey::tap_tweak parity (internal {}, merkle root {:?})", hex(&xo), root.map(|r| hex(&r)));
+    ctx.class(if root.is_some() { "keypair:tweak-with-root" } else { "keypair:tweak-without-root" });
+    Ok(())
+}
+
+fn check_key_spend(internal: &XOnlyPublicKey, root: Option<H>, t: &mut Tape, ctx: &mut Ctx) -> R {
+    let xo = internal.serialize();
+    let Some(ok) = rt::output_key(&xo, root.as_ref()) else {
+        ctx.exclude();
+        return Ok(());
+    };
+    let mr = root.map(TapNodeHash::from_byte_array);
+    let info = guard::guard("TaprootSpendInfo::new_key_spend", 0, || TaprootSpendInfo::new_key_spend(secp(), *internal, mr))?;
+    let (l_out, l_par, l_root, n_map) = guard::guard("TaprootSpendInfo accessors", 0, || {
+        (info.output_key().into_inner().serialize(), info.output_key_parity(), info.merkle_root().map(|r| r.to_byte_array()), info.as_script_map().len())
+    })?;
+    ctx.evals_n(2);
+    ensure_eq!(hex(&l_out), hex(&ok.x), "new_key_spend output key differs from lift_x(P) + tagged(TapTweak/elements, P{})*G for internal {}", if root.is_some() { " || root" } else { "" }, hex(&xo));
+    ensure_eq!(l_par == Parity::Odd, ok.odd, "new_key_spend parity for internal {}", hex(&xo));
+    ensure_eq!(l_root, root, "new_key_spend merkle root");
+    ensure_eq!(n_map, 0, "new_key_spend has scripts");
+    let key = (gen_leaf_script(t), 0xc4u8);
+    ensure!(lib_control_block(&info, &key)?.is_none(), "a key-spend-only output produces a control block");
+    ctx.class(if root.is_some() { "key-spend:given-root" } else { "key-spend:no-tree" });
+    Ok(())
+}
+
+fn chain_tree(t: &mut Tape, depth: usize) -> Node {
+    let orient = t.below(3);
+    let leaf = |i: usize| Node::Leaf { script: vec![0x51, (i & 0xff) as u8, (i >> 8) as u8], ver: 0xc4 };
+    let mut node = leaf(0);
+    for d in (1..=depth).rev() {
+        let sib = leaf(d);
+        let left_leaf = match orient {
+            0 => true,
+            1 => false,
+            _ => t.bool(),
+        };
+        node = if left_leaf { Node::Branch(Box::new(sib), Box::new(node)) } else { Node::Branch(Box::new(node), Box::new(sib)) };
+    }
+    node
+}
+
+fn mutate_history(t: &mut Tape, items: &mut Vec<(usize, Node)>) -> &'static str {
+    let n = items.len();
+    match t.below(7) {
+        0 => {
+            let i = t.below(n);
+            items[i].0 += 1;
+            "depth+1"
+        }
+        1 => {
+            let i = t.below(n);
+            items[i].0 = items[i].0.saturating_sub(1);
+            "depth-1"
+        }
+        2 => {
+            let i = t.below(n);
+            items.remove(i);
+            "item-dropped"
+        }
+        3 => {
+            let i = t.below(n);
+            let it = items[i].clone();
+            items.insert(i, it);
+            "item-repeated"
+        }
+        4 => {
+            if n >= 2 {
+                let i = t.below(n - 1);
+                items.swap(i, i + 1);
+            }
+            "adjacent-swapped"
+        }
+        5 => {
+            let i = t.below(n + 1);
+            let d = t.below(9);
+            items.insert(i, (d, gen_leaf(t)));
+            "item-inserted"
+        }
+        _ => {
+            let i = t.below(n);
+            items[i].0 = t.choose(&[0usize, 1, 2, 127, 128, 129, 130, 255, 256, 1 << 20, usize::MAX]);
+            "depth-extreme"
+        }
+    }
+}
+
+fn random_trees(t: &mut Tape, ctx: &mut Ctx) -> R {
+    ref_ready()?;
+    let class = t.below(16);
+    let (internal, kp) = gen_internal(t);
+    match class {
+        10 => {
+            // deep chains around the 128-level limit
+            let depth = match t.below(8) {
+                0 => 127,
+                1 | 2 => 128,
+                3 | 4 => 129,
+                5 => 130 + t.below(200),
+                6 => 100 + t.below(29),
+                _ => 40 + t.below(60),
+            };
+            let mut tree = chain_tree(t, depth);
+            if t.chance(64) {
+                // the deepest leaf pair is also present near the root: shortest proof wanted
+                if let Node::Branch(l, r) = &mut tree {
+                    let dup = Node::Leaf { script: vec![0x51, 0, 0], ver: 0xc4 };
+                    if matches!(**l, Node::Leaf { .. }) {
+                        **l = dup;
+                    } else {
+                        **r = dup;
+                    }
+                }
+            }
+            let items = rt::dfs_items(&tree);
+            if depth > rt::MAX_DEPTH {
+                ctx.eval();
+                let got = lib_build(&items, &internal)?;
+                ensure!(got.is_err(), "a tree with leaves at depth {} (limit {}) is finalized", depth, rt::MAX_DEPTH);
+                ctx.class("chain:>128:refused");
+                ctx.nontrivial(&("chain", depth, items.first().map(|i| i.0)));
+                if ctx.wants_sample("chain:>128") {
+                    let stage = got.err().unwrap_or_default();
+                    ctx.sample("chain:>128", || json!({"depth": depth, "refused_at": stage}));
+                }
+                return Ok(());
+            }
+            ctx.class(match depth {
+                128 => "chain:128",
+                127 => "chain:127",
+                _ => "chain:<127",
+            });
+            let plan = Plan { full_neg_keys: 2, few: 2, max_keys: 6 };
+            build_valid_and_check("chain", &tree, &[], &internal, &plan, t, ctx)?;
+            if let Some(kp) = kp {
+                check_keypair(&kp, Some(rt::merkle_root(&tree)), ctx)?;
+            }
+            Ok(())
+        }
+        11 => {
+            let root = if t.bool() { Some(t.arr32()) } else { None };
+            check_key_spend(&internal, root, t, ctx)?;
+            if let Some(kp) = kp {
+                check_keypair(&kp, root, ctx)?;
+            }
+            Ok(())
+        }
+        _ => {
+            let n = 1 + t.below(40);
+            let dup_chance: u32 = if class >= 12 { 90 } else { 20 };
+            let hide_chance: u32 = if class >= 12 || class == 8 { 30 } else { 0 };
+            let mut made: Vec<Node> = Vec::new();
+            let mut leaf = |t: &mut Tape| {
+                let l = if !made.is_empty() && t.chance(dup_chance) {
+                    // same script (and mostly the same version) somewhere else in the tree
+                    let mut l = made[t.below(made.len())].clone();
+                    if t.chance(40) {
+                        if let Node::Leaf { ver, .. } = &mut l {
+                            *ver ^= 2;
+                            if *ver == 0x50 {
+                                *ver = 0x54;
+                            }
+                        }
+                    }
+                    l
+                } else {
+                    gen_leaf(t)
+                };
+                made.push(l.clone());
+                l
+            };
+            let full = gen_shape(t, n, &mut leaf);
+            let mut inner = Vec::new();
+            let tree = if hide_chance > 0 { hide_subtrees(t, &full, hide_chance, &mut 0, &mut inner) } else { full };
+            let plan = Plan { full_neg_keys: 3, few: 2, max_keys: 40 };
+            if class == 8 || class == 9 {
+                // a history that may or may not be a DFS walk
+                let mut items = rt::dfs_items(&tree);
+                let what = mutate_history(t, &mut items);
+                let want = rt::tree_from_dfs(&items);
+                let got = lib_build(&items, &internal)?;
+                ctx.eval();
+                let depths: Vec<usize> = items.iter().map(|(d, _)| *d).collect();
+                let visible = items.iter().any(|(_, n)| matches!(n, Node::Leaf { .. }));
+                return match (want, got) {
+                    (None, Err(stage)) => {
+                        ctx.class(&format!("history:{}:invalid:refused", what));
+                        ctx.nontrivial(&("history", &depths));
+                        if ctx.wants_sample("history:invalid") {
+                            ctx.sample("history:invalid", || json!({"mutation": what, "depths": depths, "refused_at": stage}));
+                        }
+                        Ok(())
+                    }
+                    (None, Ok(_)) => Err(Failure::new(format!("the builder finalizes the history with depths {:?} ({}), which is not a DFS walk of a complete tree of depth <= 128", depths, what))),
+                    (Some(_), Err(stage)) => {
+                        if !visible {
+                            return Ok(());
+                        }
+                        Err(Failure::new(format!("the builder refuses the valid DFS history with depths {:?} ({}): {}", depths, what, stage)))
+                    }
+                    (Some(tree2), Ok(info)) => {
+                        ctx.class(&format!("history:{}:valid", what));
+                        check_info("history:valid", &tree2, &[], &info, &internal, &plan, t, ctx)
+                    }
+                };
+            }
+            build_valid_and_check(if inner.is_empty() && hide_chance == 0 { "random" } else { "random:hidden" }, &tree, &inner, &internal, &plan, t, ctx)?;
+            if let Some(kp) = kp {
+                check_keypair(&kp, Some(rt::merkle_root(&tree)), ctx)?;
+            }
+            Ok(())
+        }
+    }
+}
+
+// ---------------------------------------------------------------------------------------------
+// 4. Huffman construction
+// ---------------------------------------------------------------------------------------------
+
+fn gen_weights(t: &mut Tape, n: usize) -> (Vec<u32>, &'static str) {
+    match t.below(10) {
+        0 => (vec![0; n], "all-zero"),
+        1 => {
+            let w = t.edgy_u32();
+            (vec![w; n], "all-equal")
+        }
+        2 => ((0..n).map(|_| if t.bool() { u32::MAX } else { t.edgy_u32() }).collect(), "with-u32-max"),
+        3 => ((0..n).map(|_| t.below(4) as u32).collect(), "many-ties"),
+        4 => {
+            // powers of two: the optimal tree is a chain
+            let s = t.below(16);
+            ((0..n).map(|i| 1u32 << ((i + s) % 32)).collect(), "powers-of-two")
+        }
+        5 => {
+            // fibonacci-like: maximally deep optimal tree
+            let (mut a, mut b) = (1u32, 1 + t.below(2) as u32);
+            let mut v = Vec::new();
+            for _ in 0..n {
+                v.push(a);
+                let c = a.saturating_add(b);
+                a = b;
+                b = c;
+            }
+            if t.bool() {
+                v.reverse();
+            }
+            (v, "fibonacci")
+        }
+        6 => ((0..n).map(|_| t.edgy_u32()).collect(), "edge-biased"),
+        7 => ((0..n).map(|_| if t.chance(100) { 0 } else { u32::from(t.u8()) }).collect(), "zeros-and-small"),
+        _ => ((0..n).map(|_| t.u32()).collect(), "random"),
+    }
+}
+
+fn huffman(t: &mut Tape, ctx: &mut Ctx) -> R {
+    ref_ready()?;
+    let (internal, _) = gen_internal(t);
+    let xo = internal.serialize();
+    let size_class = t.below(32);
+    let n = match size_class {
+        0..=27 => 1 + t.below(16),
+        28 | 29 => 0,
+        _ => 17 + t.below(134),
+    };
+    let big = n > 16;
+    let (weights, wclass) = gen_weights(t, n);
+    let mut scripts: Vec<Vec<u8>> = (0..n)
+        .map(|i| {
+            let mut s = vec![i as u8, 0x51];
+            let k = t.below(3);
+            s.extend_from_slice(&t.bytes(k));
+            s
+        })
+        .collect();
+    let mut dups = false;
+    if n >= 2 && !big && t.chance(50) {
+        let a = t.below(n);
+        let mut b = t.below(n - 1);
+        if b >= a {
+            b += 1;
+        }
+        scripts[b] = scripts[a].clone();
+        dups = true;
+    }
+    let input: Vec<(u32, Script)> = weights.iter().zip(&scripts).map(|(w, s)| (*w, Script::from(s.clone()))).collect();
+    let got = guard::guard("TaprootSpendInfo::with_huffman_tree", n * 64, || {
+        TaprootSpendInfo::with_huffman_tree(secp(), internal, input.into_iter()).map_err(|e| format!("{:?}", e))
+    })?;
+    ctx.eval();
+    if n == 0 {
+        ensure!(got.is_err(), "with_huffman_tree of an empty list gives a spend info");
+        ctx.class("huffman:empty:refused");
+        return Ok(());
+    }
+    let info = match got {
+        Ok(i) => i,
+        Err(e) => {
+            if big {
+                // documented: refused when the tree would be deeper than 128
+                ctx.class("huffman:big:refused");
+                return Ok(());
+            }
+            return Err(Failure::new(format!("with_huffman_tree refuses weights {:?}: {}", weights, e)));
+        }
+    };
+    let (l_root, l_out, l_par) = guard::guard("TaprootSpendInfo accessors", 0, || {
+        (info.merkle_root().map(|r| r.to_byte_array()), info.output_key().into_inner().serialize(), info.output_key_parity())
+    })?;
+    let Some(root) = l_root else {
+        return Err(Failure::new("with_huffman_tree gives a spend info without a merkle root"));
+    };
+    // the reference derives the output key from the root every leaf's own proof leads to
+    let Some(ok) = rt::output_key(&xo, Some(&root)) else {
+        ctx.exclude();
+        return Ok(());
+    };
+    let out_ref = xonly_from(&ok.x)?;
+    ensure_eq!(hex(&l_out), hex(&ok.x), "Huffman spend info: output key differs from lift_x(internal) + tweak*G (internal {}, root {})", hex(&xo), hex(&root));
+    ensure_eq!(l_par == Parity::Odd, ok.odd, "Huffman spend info: output key parity (internal {}, root {})", hex(&xo), hex(&root));
+
+    let mut depths: Vec<usize> = Vec::with_capacity(n);
+    let examine: Vec<usize> = if big { (0..12).map(|_| t.below(n)).collect() } else { (0..n).collect() };
+    let mut sers: Vec<Vec<u8>> = Vec::new();
+    for i in 0..n {
+        let key = (scripts[i].clone(), 0xc4u8);
+        let Some(cb) = lib_control_block(&info, &key)? else {
+            return Err(Failure::new(format!("Huffman tree over weights {:?}: no control block for script #{}", weights, i)));
+        };
+        let (ser, size) = guard::guard("ControlBlock::{serialize,size}", 0, || (cb.serialize(), cb.size()))?;
+        ensure!(ser.len() >= 33 && (ser.len() - 33) % 32 == 0 && size == ser.len(), "Huffman: control block size {} / serialized length {}", size, ser.len());
+        let d = (ser.len() - 33) / 32;
+        depths.push(d);
+        if examine.contains(&i) {
+            ctx.evals_n(3);
+            // own verification: the path leads from this leaf to the committed root
+            let path: Vec<H> = ser[33..]
+                .chunks_exact(32)
+                .map(|c| {
+                    let mut a = [0u8; 32];
+                    a.copy_from_slice(c);
+                    a
+                })
+                .collect();
+            let r = rt::root_from_path(&rt::leaf_hash(0xc4, &scripts[i]), &path);
+            ensure_eq!(hex(&r), hex(&root), "Huffman tree over weights {:?}: the path in the control block of script #{} does not lead to the merkle root", weights, i);
+            ensure_eq!(hex(&ser[..33]), hex(&rt::control_block_bytes(0xc4, ok.odd, &xo, &[])), "Huffman: control block header of script #{}", i);
+            ensure!(lib_verify(&cb, &out_ref, &scripts[i])?, "Huffman tree over weights {:?}: the control block of script #{} does not verify", weights, i);
+            match lib_parse_cb(&ser)? {
+                Some(back) => ensure!(back == cb, "Huffman: from_slice(serialize()) differs for script #{}", i),
+                None => return Err(Failure::new(format!("Huffman: from_slice refuses the control block of script #{}", i))),
+            }
+        }
+        sers.push(ser);
+    }
+    // negatives on one leaf
+    {
+        let i = t.below(n);
+        let env = NegEnv { ser: &sers[i], script: &scripts[i], out: out_ref, internal, others: &scripts };
+        for _ in 0..2 {
+            let k = t.below(NEG_KINDS);
+            if negative(k, &env, t, ctx)? {
+                ctx.nontrivial(&("huffman-neg", n, wclass, k, depths[i]));
+            }
+        }
+    }
+    ctx.class(&format!("huffman:weights:{}", wclass));
+    ctx.class(match n {
+        1 => "huffman:1-leaf",
+        2 => "huffman:2-leaves",
+        3..=16 => "huffman:3-16-leaves",
+        _ => "huffman:17-150-leaves",
+    });
+    let maxd = depths.iter().copied().max().unwrap_or(0);
+    if dups {
+        // documented: the shortest control block is returned for a script that occurs twice;
+        // every recorded branch of every script is a valid proof
+        ctx.class("huffman:duplicate-script");
+        let map: Vec<(Vec<u8>, Vec<Vec<u8>>)> = guard::guard("as_script_map", 0, || {
+            info.as_script_map().iter().map(|((s, _), set)| (s.to_bytes(), set.iter().map(|b| b.serialize()).collect())).collect()
+        })?;
+        let distinct: BTreeSet<&Vec<u8>> = scripts.iter().collect();
+        ensure_eq!(map.len(), distinct.len(), "Huffman with a repeated script: number of script map entries");
+        for (s, branches) in &map {
+            let i = scripts.iter().position(|x| x == s);
+            let Some(i) = i else { return Err(Failure::new("Huffman: script map holds a script that was not given")) };
+            let mult = scripts.iter().filter(|x| *x == s).count();
+            ensure!(!branches.is_empty() && branches.len() <= mult, "Huffman: {} branches recorded for a script given {} times", branches.len(), mult);
+            let shortest = branches.iter().map(|b| b.len() / 32).min().unwrap_or(0);
+            ensure_eq!(depths[i], shortest, "Huffman: control_block does not return the shortest of the recorded branches of a repeated script");
+            for b in branches {
+                let path: Vec<H> = b
+                    .chunks_exact(32)
+                    .map(|c| {
+                        let mut a = [0u8; 32];
+                        a.copy_from_slice(c);
+                        a
+                    })
+                    .collect();
+                ctx.eval();
+                ensure_eq!(hex(&rt::root_from_path(&rt::leaf_hash(0xc4, s), &path)), hex(&root), "Huffman: a recorded branch of a repeated script does not lead to the merkle root");
+            }
+        }
+        ctx.nontrivial(&("huffman-dup", n, wclass, &depths));
+        return Ok(());
+    }
+    // optimality
+    ctx.evals_n(2);
+    let cost: u128 = weights.iter().zip(&depths).map(|(w, d)| u128::from(*w) * *d as u128).sum();
+    let best = rt::huffman_cost(&weights);
+    ensure_eq!(cost, best, "Huffman tree is not optimal: weights {:?} got depths {:?} (sum of weight*depth vs optimum)", weights, depths);
+    for i in 0..n {
+        for j in 0..n {
+            ensure!(
+                !(weights[i] > weights[j] && depths[i] > depths[j]),
+                "Huffman tree places a heavier leaf deeper than a lighter one: weight {} at depth {}, weight {} at depth {} (weights {:?}, depths {:?})",
+                weights[i],
+                depths[i],
+                weights[j],
+                depths[j],
+                weights,
+                depths
+            );
+        }
+    }
+    if maxd <= 120 {
+        // the leaves are exactly the given scripts: Kraft sum 1
+        let kraft: u128 = depths.iter().map(|d| 1u128 << (maxd - d)).sum();
+        ensure_eq!(kraft, 1u128 << maxd, "Huffman tree with depths {:?} is not a complete binary tree over exactly the given leaves", depths);
+    }
+    if n >= 3 {
+        ctx.nontrivial(&("huffman", n, wclass, &depths));
+    }
+    if ctx.wants_sample("huffman") && n >= 3 && n <= 16 {
+        ctx.sample("huffman", || json!({"weights": weights, "depths": depths, "cost": cost.to_string(), "optimum": best.to_string(), "class": wclass}));
+    }
+    Ok(())
+}
 
 pub fn property() -> Property {
-    Property { id: "C15", rule: "", assumptions: &[], subs: vec![], known: vec![] }
+    Property {
+        id: "C15",
+        rule: "shapes_exhaustive: every full binary tree shape with 1..=7 leaves (197 shapes; thorough 1..=9, 2056 shapes) x content \
+               variants (variant 0: distinct one-byte scripts, default version via add_leaf; others: seeded scripts of 0..600 bytes \
+               incl. the 0xfd compact-size boundary, any even leaf version except 0x50, internal key from a seeded secret / x-only \
+               bytes / pool), fed to TaprootBuilder leaf by leaf in DFS order. Oracle (refimpl/taproot.rs, self-tested against the \
+               BIP-341 wallet vectors, Catalan counts and brute-force Huffman): merkle root over own tagged hashes with \
+               TapLeaf/TapBranch/TapTweak '/elements' tags and lexicographically sorted pairs; output key and parity as \
+               even-Y internal point + tweak*G by point addition; script map == visible leaves with exactly their sibling paths; per \
+               leaf the control block exists, size() == serialize().len() == 33+32*depth, bytes == reference bytes, from_slice \
+               round trip, verifies; TapLeafHash / TapTweakHash equal the reference. 10 negatives per leaf: mutated script, script \
+               of another leaf, other leaf version, path element changed / dropped / added / two adjacent swapped (skipped if \
+               equal), parity flipped, other output key, internal key as output key: from_slice refuses or verification is false. \
+               depth_sequences_exhaustive: every sequence of length 1..=5 over depths 0..=5 (thorough 1..=6 over 0..=6) with every \
+               leaf/hidden mask; accepted (all add_* Ok and finalize Ok) iff a recursive-descent parse from depth 0 consumes exactly \
+               the sequence (cross-checked against an aligned-Kraft-sum formulation); accepted ones get the full comparison; a valid \
+               all-hidden tree may be refused. random_trees: tape-driven shapes of 1..=40 leaves with forced duplicate scripts \
+               (control_block must return a shortest-depth proof, every occurrence's proof verifies), hidden nodes replacing \
+               subtrees (random hash or the real subtree hash: then leaves below have no control block but an externally built \
+               proof verifies), DFS histories with one mutation (depth +-1, extreme depth, item dropped / repeated / inserted / \
+               swapped) judged by the same oracle, chains to depth 40..=128 (accepted, sampled leaves) and 129..=329 (refused), \
+               new_key_spend with and without a root, and for known secrets Keypair::tap_tweak: the tweaked secret regenerates \
+               exactly the reference output point. huffman: 0..=16 (rarely up to 150) weighted scripts, weight classes all-zero / \
+               all-equal / u32::MAX / ties / powers of two / fibonacci / edge-biased / random; empty input refused; every control \
+               block's path leads to the merkle root under the reference hashes and verifies; sum(weight*depth) == optimum of the \
+               harness's greedy; w_i > w_j => depth_i <= depth_j; Kraft sum 1; a repeated script returns the shortest recorded \
+               branch. Non-trivial: a tree with >= 3 leaves, or a hidden node, or a duplicate leaf, or a negative verification \
+               (distinct by DFS depth/hidden signature, leaf and negative kind), invalid sequences of >= 3 items or with a hidden \
+               node, Huffman inputs with >= 3 leaves (distinct by weight class and depth vector).",
+        assumptions: &[
+            "libsecp256k1 point addition (PublicKey::combine, from_secret_key) is correct; the library's x-only tweak API is not used by the oracle",
+            "the harness SHA-256 is checked against FIPS 180-4 vectors, the taproot reference against the BIP-341 wallet vectors at start-up",
+            "a verification succeeding for a changed script / path is a hash collision (probability 2^-128) and is treated as impossible",
+        ],
+        subs: vec![
+            Sub {
+                name: "shapes_exhaustive",
+                kind: Kind::Index {
+                    count: |t| match t {
+                        Tier::Quick => 197 * SHAPE_VARIANTS_QUICK,
+                        Tier::Thorough => 2056 * SHAPE_VARIANTS_THOROUGH,
+                    },
+                    exhaustive: true,
+                    f: shapes_exhaustive,
+                },
+            },
+            Sub { name: "depth_sequences_exhaustive", kind: Kind::Index { count: seq_count, exhaustive: true, f: depth_sequences_exhaustive } },
+            Sub { name: "random_trees", kind: Kind::Tape { max_len: 3000, quick: 6_000, thorough: 200_000, f: random_trees } },
+            Sub { name: "huffman", kind: Kind::Tape { max_len: 600, quick: 10_000, thorough: 300_000, f: huffman } },
+        ],
+        known: vec![],
+    }
 }
